@@ -109,3 +109,220 @@ Proof. unfold printed. rewrite filter_app, flat_map_app, map_app. reflexivity. Q
 Lemma printed_flat_map {A} (f : A -> list entry) l : printed (flat_map f l) = flat_map (fun x => printed (f x)) l.
 Proof. unfold printed. rewrite filter_flat_map', flat_map_flat_map', map_flat_map'. reflexivity. Qed.
 
+Lemma print_items :
+  (forall v : value, True)
+  /\ (forall it, forall k p, dsh_item it = true -> p <> [] -> (forall e, In e (ients it p) -> f2 e = true) ->
+                 Permutation (printed (ients it p)) (TBit k it))
+  /\ (forall t, forall p a, dsh_tbl t = true -> p <> [] -> (forall e, In e (ents t p a) -> f2 e = true) ->
+                Permutation (printed (ents t p a)) (if t_dotted t then TBt t else ALL t a)).
+Proof.
+  apply tree_ind3; try (intros; exact I).
+  - intros; reflexivity.
+  - intros; reflexivity.
+  - intros t IH k p Hs Hp Hf. rewrite ients_table in *. cbn [TBit]. apply IH; assumption.
+  - intros ts sp IH k p Hs Hp Hf. rewrite ients_aot in *. cbn [TBit]. rewrite ALLit_aot, printed_flat_map. apply perm_flat_map_ext.
+    rewrite dsh_item_aot in Hs. rewrite forallb_forall in Hs. rewrite Forall_forall in *. intros t Ht.
+    pose proof (Hs t Ht) as Hst. apply andb_true_iff in Hst as [Hd Hst]. apply negb_true_iff in Hd.
+    specialize (IH t Ht p true Hst Hp). rewrite Hd in IH. apply IH. intros e He. apply Hf, in_flat_map. exists t. auto.
+  - intros items d im dt pos sp IH p a Hs Hp Hf. rewrite ents_eq in *. rewrite printed_app. rewrite dsh_tbl_eq in Hs. cbn [t_dotted t_items] in *.
+    rewrite forallb_forall in Hs.
+    (* the entries below *)
+    assert (Hsub : Permutation (printed (sub_ents items p)) (TBI items)).
+    { unfold sub_ents, TBI. rewrite printed_flat_map. apply perm_flat_map_ext. rewrite Forall_forall in *. intros [k it] Hk. cbn [fst snd].
+      apply (IH (k, it) Hk k (p ++ [k]) (Hs _ Hk)); [destruct p; discriminate|]. intros e He. apply Hf, in_or_app. right.
+      unfold sub_ents. apply in_flat_map. exists (k, it). auto. }
+    set (t := Tbl items d im dt pos sp) in *.
+    destruct dt.
+    + cbn [app printed filter flat_map map]. rewrite Hsub, TBt_eq. reflexivity.
+    + pose proof (Hf (t, p, a) (or_introl eq_refl)) as Hown. unfold f2, etbl in Hown. cbn [fst] in Hown.
+      pose proof (proj2 (proj2 all_lines) t []) as HL1. rewrite TBt_eq in HL1. cbn [t_items t] in HL1. fold t in HL1.
+      rewrite ALL_eq. cbn [t_items t]. fold t. unfold printed at 1. cbn [filter]. destruct (dvis (t, p, a)) eqn:Ev.
+      * (* it prints: header, lines *)
+        cbn [flat_map pit]. rewrite app_nil_r. destruct p as [|k0 p0]; [congruence|]. cbn [app map pfw]. rewrite pfw_lines.
+        assert (Hh : hdr t a = [PH (span_start t) (t_position t) a (t_decor t)]).
+        { unfold hdr. cbn [t t_dotted orb]. cbn [dvis] in Ev. destruct a; [rewrite andb_false_r; reflexivity|]. cbn [orb negb andb] in *.
+          destruct (t_implicit t) eqn:Ei; [|reflexivity]. cbn [negb orb andb] in *. rewrite Hown in Ev. discriminate. }
+        rewrite Hh. cbn [app]. apply perm_skip. rewrite Hsub. exact HL1.
+      * (* it does not print: a super-table without lines *)
+        cbn [flat_map map app]. cbn [dvis] in Ev. apply orb_false_iff in Ev as [-> Ev]. apply negb_false_iff, andb_true_iff in Ev as [Ei En].
+        assert (Hh : hdr t false = []) by (unfold hdr; rewrite Ei; cbn [negb andb]; rewrite orb_true_r; reflexivity). rewrite Hh. cbn [app].
+        unfold no_tv in En. destruct (tv t []) eqn:Etv; [|discriminate]. cbn [map app] in HL1. rewrite Hsub. exact HL1.
+Qed.
+
+(* Claim A: what is printed is, as a multiset, the items of the tree *)
+Theorem printed_all r : dsh_tbl r = true -> (forall e, In e (sub_ents (t_items r) []) -> f2 e = true) ->
+  Permutation (map pfw (flat_map pit ((r, [], false) :: filter dvis (sub_ents (t_items r) [])))) (ALLI (t_items r)).
+Proof.
+  intros Hs Hf. cbn [flat_map pit app]. rewrite map_app, pfw_lines. fold (printed (sub_ents (t_items r) [])).
+  pose proof (proj2 (proj2 all_lines) r []) as HL1. rewrite <- HL1. apply Permutation_app_head. rewrite TBt_eq.
+  rewrite dsh_tbl_eq in Hs. rewrite forallb_forall in Hs. unfold sub_ents, TBI. rewrite printed_flat_map. apply perm_flat_map_ext.
+  rewrite Forall_forall. intros [k it] Hk. cbn [fst snd app].
+  apply (proj1 (proj2 print_items) it k [k] (Hs _ Hk)); [discriminate|]. intros e He. apply Hf. unfold sub_ents. apply in_flat_map. exists (k, it). auto.
+Qed.
+
+(* ---- the print sequence and the checks on it ----------------------------------------------------------------------------- *)
+Definition vis_entries (r : tbl) : list entry := (r, [], false) :: filter dvis (sub_ents (t_items r) []).
+Definition sorted_entries (r : tbl) : list entry := map snd (stable_sort (map (fun e => (epos e, e)) (vis_entries r))).
+Definition S_print (r : tbl) : list witem := flat_map pit (sorted_entries r).
+
+Fixpoint sorted_ltb (l : list N) : bool :=
+  match l with [] => true | x :: tl => forallb (fun y => (x <? y)%N) tl && sorted_ltb tl end.
+Lemma sorted_ltb_ok l : sorted_ltb l = true -> StronglySorted N.lt l.
+Proof.
+  induction l as [|x l IH]; [constructor|]. cbn [sorted_ltb]. intro H. apply andb_true_iff in H as [H1 H2].
+  constructor; [apply IH, H2|]. rewrite forallb_forall in H1. apply Forall_forall. intros y Hy. specialize (H1 y Hy). lia.
+Qed.
+
+(* a header / a line is spelled in the source as it prints *)
+Definition wok (s : bytes) (w : witem) : bool :=
+  match w with
+  | WH (t, p, a) => match span_start t with Some st => starts_with (hdr_text s p a) (skipn (N.to_nat st) s) | None => false end
+  | WL kp v => kline_ok s (removelast kp) (last kp kdummy)
+  end.
+
+(* supers hold no lines; the source positions of what is printed increase; everything is spelled as it prints *)
+Definition laid_out (s : bytes) (r : tbl) : bool :=
+  forallb f2 (sub_ents (t_items r) [])
+  && sorted_ltb (map (fun w => ppos (pfw w)) (S_print r))
+  && forallb (wok s) (S_print r).
+
+(* ---- keys of tables along paths ----------------------------------------------------------------------------------------- *)
+Lemma ents_paths2 (K : key -> Prop) :
+  (forall v : value, True)
+  /\ (forall it, forall p, uki2 K it -> Forall K p -> Forall (fun e => Forall K (epath e) /\ uk2 K (etbl e)) (ients it p))
+  /\ (forall t, forall p a, uk2 K t -> Forall K p -> Forall (fun e => Forall K (epath e) /\ uk2 K (etbl e)) (ents t p a)).
+Proof.
+  apply tree_ind3; try (intros; exact I).
+  - intros; constructor.
+  - intros; constructor.
+  - intros t IH p Hu Hp. rewrite ients_table. apply IH; assumption.
+  - intros ts sp IH p Hu Hp. rewrite ients_aot. apply uki2_aot in Hu. rewrite Forall_forall in IH, Hu. apply Forall_forall. intros e He.
+    apply in_flat_map in He as (t & Ht & He). specialize (IH t Ht p true (Hu t Ht) Hp). rewrite Forall_forall in IH. apply IH, He.
+  - intros items d im dt pos sp IH p a Hu Hp. rewrite ents_eq. pose proof Hu as Hu0. apply uk2_eq in Hu as (_ & Hs). cbn [t_dotted t_items] in *.
+    apply Forall_app. split; [destruct dt; constructor; [split; [exact Hp|exact Hu0]|constructor]|].
+    unfold sub_ents, uks2 in *. rewrite Forall_forall in IH, Hs. apply Forall_forall. intros e He. apply in_flat_map in He as ([k it] & Hk & He). cbn [fst snd] in He.
+    destruct (Hs _ Hk) as [HK Hi]. cbn [fst snd] in *. destruct it as [|v|sub|ts asp]; [destruct He|destruct He| |].
+    + specialize (IH _ Hk (p ++ [k]) Hi). cbn [snd] in IH. assert (Hpk : Forall K (p ++ [k])).
+      { apply Forall_app. split; [exact Hp|constructor; [apply HK; reflexivity|constructor]]. }
+      specialize (IH Hpk). rewrite Forall_forall in IH. apply IH, He.
+    + specialize (IH _ Hk (p ++ [k]) Hi). cbn [snd] in IH. assert (Hpk : Forall K (p ++ [k])).
+      { apply Forall_app. split; [exact Hp|constructor; [apply HK; reflexivity|constructor]]. }
+      specialize (IH Hpk). rewrite Forall_forall in IH. apply IH, He.
+Qed.
+
+Lemma removelast_snoc {A} (l : list A) x : removelast (l ++ [x]) = l.
+Proof. apply removelast_last. Qed.
+
+Lemma tv_paths2 (K : key -> Prop) :
+  (forall v : value, True)
+  /\ (forall it, forall k p, (is_tab it = true -> K k) -> uki2 K it -> Forall K p ->
+                 Forall (fun kv : list key * value => fst kv <> [] /\ Forall K (removelast (fst kv))) (tvit it (p ++ [k])))
+  /\ (forall t, forall p, uk2 K t -> Forall K p ->
+                Forall (fun kv : list key * value => fst kv <> [] /\ Forall K (removelast (fst kv))) (tv t p)).
+Proof.
+  apply tree_ind3; try (intros; exact I).
+  - intros; constructor.
+  - intros v _ k p _ _ Hp. constructor; [|constructor]. cbn [fst]. split; [destruct p; discriminate|]. rewrite removelast_snoc. exact Hp.
+  - intros t IH k p Hk Hu Hp. cbn [tvit]. destruct (t_dotted t); [|constructor]. apply IH; [exact Hu|].
+    apply Forall_app. split; [exact Hp|constructor; [apply Hk; reflexivity|constructor]].
+  - intros; constructor.
+  - intros items d im dt pos sp IH p Hu Hp. rewrite tv_eq. apply uk2_eq in Hu as (_ & Hs). cbn [t_items] in *. unfold tvi, uks2 in *.
+    rewrite Forall_forall in IH, Hs. apply Forall_forall. intros x Hx. apply in_flat_map in Hx as ([k it] & Hk & Hx). cbn [fst snd] in Hx.
+    destruct (Hs _ Hk) as [HK Hi]. cbn [fst snd] in *. specialize (IH _ Hk k p HK Hi Hp). cbn [snd] in IH. rewrite Forall_forall in IH. apply IH, Hx.
+Qed.
+
+(* ---- the theorem ------------------------------------------------------------------------------------------------------- *)
+Lemma in_S_print r w : In w (S_print r) -> exists e, In e (vis_entries r) /\ In w (pit e).
+Proof.
+  unfold S_print. intro H. apply in_flat_map in H as (e & He & Hw). exists e. split; [|exact Hw].
+  unfold sorted_entries in He. apply in_map_iff in He as ([q e0] & <- & He). apply (Permutation_in _ (stable_sort_perm _)) in He.
+  apply in_map_iff in He as (e1 & E1 & He). injection E1 as _ <-. exact He.
+Qed.
+
+Lemma S_print_perm r : Permutation (S_print r) (flat_map pit (vis_entries r)).
+Proof.
+  unfold S_print. apply Permutation_flat_map. unfold sorted_entries.
+  transitivity (map snd (map (fun e => (epos e, e)) (vis_entries r))); [apply Permutation_map, stable_sort_perm|].
+  rewrite map_map. cbn [snd]. rewrite map_id. reflexivity.
+Qed.
+
+Lemma concat_flat_map {A B} (f : A -> list B) l : concat (map f l) = flat_map f l.
+Proof. symmetry. apply flat_map_concat_map. Qed.
+
+Lemma sorted_tag_lt {A} (f : A -> N) (l : list A) : StronglySorted N.lt (map f l) -> StronglySorted klt (map (fun x => (f x, x)) l).
+Proof.
+  induction l as [|x l IH]; [constructor|]. cbn [map]. intro H. inversion H as [|? ? H1 H2]; subst. constructor; [apply IH, H1|].
+  rewrite Forall_map in *. eapply Forall_impl; [|exact H2]. intros a Ha. unfold klt. cbn [fst]. exact Ha.
+Qed.
+Lemma sorted_tag_le {A} (f : A -> N) (l : list A) : StronglySorted N.lt (map f l) -> StronglySorted kle (map (fun x => (f x, x)) l).
+Proof.
+  induction l as [|x l IH]; [constructor|]. cbn [map]. intro H. inversion H as [|? ? H1 H2]; subst. constructor; [apply IH, H1|].
+  rewrite Forall_map in *. eapply Forall_impl; [|exact H2]. intros a Ha. unfold kle. cbn [fst]. cbn beta in Ha. lia.
+Qed.
+
+Lemma tag_inj {A} (f : A -> N) : forall l1 l2 : list A, map (fun x => (f x, x)) l1 = map (fun x => (f x, x)) l2 -> l1 = l2.
+Proof. induction l1 as [|a l1 IH]; intros [|b l2] E; try discriminate; [reflexivity|]. cbn [map] in E. injection E as _ -> E. f_equal. apply IH, E. Qed.
+
+Theorem dsections_render s r tr (items : list sitem) :
+  dsh_tbl r = true -> t_dotted r = false -> t_decor r = decor_default -> t_position r = None -> uk2 (hkey s) r ->
+  Permutation (ALLI (t_items r)) (map fst items) -> Forall (sitem_ok s) items ->
+  StronglySorted N.lt (map (fun it : sitem => ppos (fst it)) items) -> laid_out s r = true ->
+  display_document (ttbl s r) tr = concat (map snd items) ++ raw_encode tr [].
+Proof.
+  intros Hs Hnd Hd Hp Hu Hperm Hok Hsort Hlay. unfold laid_out in Hlay.
+  apply andb_true_iff in Hlay as [Hlay Hwok]. apply andb_true_iff in Hlay as [Hf2 Hso].
+  rewrite forallb_forall in Hf2, Hwok. apply sorted_ltb_ok in Hso.
+  set (rest := sub_ents (t_items r) []) in *.
+  pose proof (sub_ents_dsh r Hs) as Hrest. fold rest in Hrest. rewrite Forall_forall in Hrest.
+  pose proof (proj2 (proj2 (ents_paths2 (hkey s))) r [] false Hu (Forall_nil _)) as Hpaths. rewrite ents_eq, Hnd in Hpaths. fold rest in Hpaths.
+  cbn [app] in Hpaths. inversion Hpaths as [|? ? _ Hpaths']; subst. clear Hpaths. rewrite Forall_forall in Hpaths'.
+  (* what is printed is what was read, as multisets *)
+  pose proof (printed_all r Hs Hf2) as PA.
+  assert (PS : Permutation (map pfw (S_print r)) (map fst items)).
+  { eapply Permutation_trans; [apply Permutation_map, S_print_perm|]. eapply Permutation_trans; [exact PA|exact Hperm]. }
+  (* and in the same order *)
+  assert (ES : map pfw (S_print r) = map fst items).
+  { assert (E : map (fun x => (ppos x, x)) (map pfw (S_print r)) = map (fun x => (ppos x, x)) (map fst items)).
+    { apply sorted_perm_unique.
+      - apply sorted_tag_lt. rewrite map_map. exact Hsort.
+      - apply sorted_tag_le. rewrite map_map. exact Hso.
+      - apply Permutation_map, PS. }
+    apply (tag_inj ppos _ _ E). }
+  (* every visible table below the root was opened by a header: position, decor *)
+  assert (Hw : Forall (fun e => dvis e = true -> t_position (etbl e) <> None /\ decor_some (t_decor (etbl e))) rest).
+  { apply Forall_forall. intros e He Hv. destruct (Hrest e He) as [_ Hpe]. destruct e as [[t p] a]. unfold epath, etbl in *. cbn [fst snd] in *.
+    assert (Hin : In (pfw (WH (t, p, a))) (map fst items)).
+    { apply (Permutation_in _ Hperm), (Permutation_in _ PA), in_map, in_flat_map. exists (t, p, a).
+      split; [right; apply filter_In; auto|]. cbn [pit]. destruct p; [congruence|]. left. reflexivity. }
+    apply in_map_iff in Hin as ([x txt] & Ex & Hit). cbn [fst pfw] in Ex. rewrite Forall_forall in Hok. specialize (Hok _ Hit). subst x. cbn [sitem_ok] in Hok.
+    destruct Hok as (start & q0 & lead & trail & Y & _ & Eq & Edec & _). rewrite Eq, Edec. split; [discriminate|split; discriminate]. }
+  rewrite (display_dsections s r tr Hs Hnd Hd Hp Hw). f_equal. unfold rest.
+  change ((r, @nil key, false) :: filter dvis (sub_ents (t_items r) [])) with (vis_entries r).
+  (* the text, item by item *)
+  transitivity (concat (map (wtext s) (S_print r))).
+  { assert (E : map (fun e => (epos e, detxt s e)) (vis_entries r) = map (on_snd (detxt s)) (map (fun e => (epos e, e)) (vis_entries r)))
+      by (rewrite map_map; reflexivity).
+    rewrite E, <- stable_sort_map, map_map. cbn [on_snd snd]. unfold S_print, sorted_entries.
+    generalize (stable_sort (map (fun e : entry => (epos e, e)) (vis_entries r))). intro L.
+    induction L as [|x L IH]; [reflexivity|]. cbn [map concat flat_map]. rewrite map_app, concat_app, <- IH, detxt_pit. reflexivity. }
+  f_equal. apply (map_pair_ext pfw fst (wtext s) snd _ _ ES). intros w [x txt] Hw0 Hit Ex. cbn [fst snd] in *.
+  destruct (in_S_print r w Hw0) as (e & He & Hwe). rewrite Forall_forall in Hok. specialize (Hok _ Hit). specialize (Hwok _ Hw0).
+  assert (Hedsh : dsh_tbl (etbl e) = true /\ uk2 (hkey s) (etbl e)).
+  { destruct He as [<- | He]; [split; assumption|]. apply filter_In in He as [He _]. split; [apply (Hrest e He)|apply (Hpaths' e He)]. }
+  destruct Hedsh as [Hes Heu]. destruct e as [[t p] a]. unfold etbl in *. cbn [fst] in *. cbn [pit] in Hwe. apply in_app_iff in Hwe as [Hwe | Hwe].
+  - (* a header *)
+    destruct p as [|k0 p0]; [destruct Hwe|]. destruct Hwe as [<- | []]. cbn [pfw] in Ex. subst x. cbn [sitem_ok] in Hok.
+    destruct Hok as (start & q0 & lead & trail & Y & Est & Eq & Edec & Hat & ->).
+    destruct He as [E0 | He]; [discriminate E0|]. apply filter_In in He as [He _].
+    cbn [wok] in Hwok. rewrite Est in Hwok. destruct (Hpaths' _ He) as [Hpk _]. unfold epath in Hpk. cbn [fst snd] in Hpk.
+    pose proof (hdr_unique s (k0 :: p0) a start Y Hpk ltac:(discriminate) Hat Hwok) as Eh.
+    cbn [wtext]. rewrite Eh, Edec. cbn [decor_new d_prefix d_suffix]. rewrite <- !app_assoc. reflexivity.
+  - (* a key/value line *)
+    apply in_map_iff in Hwe as ([kp v] & <- & Hkv). cbn [wline fst snd pfw] in *. subst x. cbn [sitem_ok] in Hok.
+    destruct Hok as (j0 & i0 & ja & jb & po & LS & r0 & Hj0 & Rj & ELS & HLS & Erepr & Eja & Hne & Epre & Hls & Hpo & Hk' & Hprom).
+    pose proof (proj2 (proj2 (tv_paths2 (hkey s))) t [] Heu (Forall_nil _)) as Htp. rewrite Forall_forall in Htp. destruct (Htp _ Hkv) as [Hkne Hks]. cbn [fst] in *.
+    pose proof (proj2 (proj2 dsh_tv) t [] Hes) as Hpv. unfold pvals in Hpv. rewrite Forall_forall in Hpv. pose proof (Hpv _ Hkv) as Hv. cbn [snd] in Hv.
+    cbn [wok] in Hwok.
+    pose proof (kline_unique s j0 i0 ja jb (removelast kp) po (last kp kdummy) LS r0 Hj0 Rj ELS HLS Erepr Eja Hne Epre Hls Hpo Hks Hk' Hwok) as Eu.
+    cbn [wtext]. rewrite <- (Hprom (removelast kp) Eu Hv). rewrite <- (app_removelast_last kdummy Hkne). reflexivity.
+Qed.
